@@ -185,6 +185,7 @@ type upCfg struct {
 	CheckOrigin  int                 `json:"check_origin"` // 0 nil, 1 always true, 2 always false
 	RespHdr      map[string][]string `json:"response_header"`
 	RespNil      bool                `json:"response_header_nil"`
+	WarmUp       bool                `json:"reused_after_an_earlier_upgrade,omitempty"`
 }
 
 var hostileValues = []string{
@@ -208,6 +209,7 @@ func genUpCfg(r *gen.R) upCfg {
 	if r.Chance(1, 6) {
 		u.CheckOrigin = 1 + r.Intn(2)
 	}
+	u.WarmUp = r.Chance(1, 5)
 	switch r.Intn(6) {
 	case 0:
 		u.RespNil = true
@@ -472,6 +474,18 @@ func (q *hsReq) direct(u upCfg) *hsOutcome {
 	nc := xport.New(nil)
 	w := newFakeRW(nc, nil, 4096)
 	up, rh := u.build()
+	if u.WarmUp {
+		// history: the application reuses its Upgrader and its responseHeader map; an
+		// earlier client offered everything (permessage-deflate, subprotocols)
+		wreq := validRequest(someKey)
+		wreq.Header["Sec-Websocket-Extensions"] = []string{"permessage-deflate; client_max_window_bits"}
+		wreq.Header["Sec-Websocket-Protocol"] = []string{"chat, superchat, x, v2.json"}
+		wreq.Host = q.Host
+		wc, _ := up.Upgrade(newFakeRW(xport.New(nil), nil, 4096), wreq, rh)
+		if wc != nil {
+			wc.Close()
+		}
+	}
 	c, err := up.Upgrade(w, req, rh)
 	o := &hsOutcome{raw: nc.Written(), status: w.status, hdr: w.hdr, hijacks: w.hijacks, conn: c, err: err, nc: nc}
 	if c != nil {
